@@ -1,8 +1,224 @@
-//! Implementation side of driver op `cmp` (see /verif/CONTRIBUTING.md).
-#![allow(unused_imports, dead_code)]
+//! Implementation side of driver op `cmp` (property C08, see /verif/CONTRIBUTING.md).
+//!
+//! `cmp all <A> <B>`  ->  nine comma separated results for
+//!     A == B, A != B, std.equals(A,B), A < B, A <= B, A > B, A >= B,
+//!     std.__compare(A,B), std.__compare_array(A,B)
+//! each `true | false | <int> | E<ErrorKind>[:detail]`.
+//! `cmp src <A>`      ->  hex of the Jsonnet source the value is rendered to.
+//!
+//! Value notation (no spaces):
+//!   null true false          literals
+//!   f                        a function            `(function(x) x)`
+//!   E                        a failing thunk       `(error "x")`
+//!   n:<int>                  integer valued number (`n:-0` is rendered `(-0)`)
+//!   d:<literal>              any decimal literal, rendered verbatim (implementation side only)
+//!   s:- | s:<cp>.<cp>...     string given by its code points (decimal)
+//!   a[V,V,...]               array (elements are lazy)
+//!   o{k=V,k~V,k!V}           object literal; `=` visible `:`, `~` hidden `::`, `!` forced `:::`
+//!   p(V,V)                   object inheritance `(V + V)`
 use crate::util::*;
 
-/// `cmp <args...>`: one canonical answer line, or `None` for a malformed request.
-pub fn handle(_args: &[&str]) -> Option<String> {
-    None
+struct P<'a> {
+    s: &'a [u8],
+    i: usize,
+}
+
+impl<'a> P<'a> {
+    fn peek(&self) -> Option<u8> {
+        self.s.get(self.i).copied()
+    }
+    fn eat(&mut self, lit: &str) -> bool {
+        if self.s[self.i..].starts_with(lit.as_bytes()) {
+            self.i += lit.len();
+            true
+        } else {
+            false
+        }
+    }
+    fn take_while(&mut self, f: impl Fn(u8) -> bool) -> &'a str {
+        let st = self.i;
+        while self.i < self.s.len() && f(self.s[self.i]) {
+            self.i += 1;
+        }
+        std::str::from_utf8(&self.s[st..self.i]).unwrap_or("")
+    }
+
+    fn list(&mut self, close: u8, out: &mut String, item: fn(&mut P<'a>, &mut String) -> Option<()>) -> Option<()> {
+        if self.peek()? == close {
+            self.i += 1;
+            return Some(());
+        }
+        loop {
+            item(self, out)?;
+            match self.peek()? {
+                b',' => {
+                    self.i += 1;
+                    out.push_str(", ");
+                }
+                c if c == close => {
+                    self.i += 1;
+                    return Some(());
+                }
+                _ => return None,
+            }
+        }
+    }
+
+    fn field(&mut self, out: &mut String) -> Option<()> {
+        let k = self.take_while(|c| c.is_ascii_lowercase() || c.is_ascii_digit() || c == b'_');
+        if k.is_empty() {
+            return None;
+        }
+        let vis = match self.peek()? {
+            b'=' => ":",
+            b'~' => "::",
+            b'!' => ":::",
+            _ => return None,
+        };
+        self.i += 1;
+        out.push_str(&format!("\"{}\"{} ", k, vis));
+        self.value(out)
+    }
+
+    fn value(&mut self, out: &mut String) -> Option<()> {
+        if self.eat("null") {
+            out.push_str("null");
+        } else if self.eat("true") {
+            out.push_str("true");
+        } else if self.eat("false") {
+            out.push_str("false");
+        } else if self.eat("f") {
+            out.push_str("(function(x) x)");
+        } else if self.eat("E") {
+            out.push_str("(error \"x\")");
+        } else if self.eat("n:") {
+            let t = self.take_while(|c| c.is_ascii_digit() || c == b'-');
+            let body = t.strip_prefix('-').unwrap_or(t);
+            if body.is_empty() || !body.bytes().all(|c| c.is_ascii_digit()) {
+                return None;
+            }
+            out.push_str(&format!("({})", t));
+        } else if self.eat("d:") {
+            let t = self.take_while(|c| c.is_ascii_digit() || matches!(c, b'-' | b'+' | b'.' | b'e' | b'E'));
+            if t.is_empty() {
+                return None;
+            }
+            out.push_str(&format!("({})", t));
+        } else if self.eat("s:") {
+            out.push('"');
+            if !self.eat("-") {
+                loop {
+                    let t = self.take_while(|c| c.is_ascii_digit());
+                    let cp: u32 = t.parse().ok()?;
+                    let ch = char::from_u32(cp)?;
+                    if ch == '"' || ch == '\\' {
+                        out.push('\\');
+                        out.push(ch);
+                    } else if cp < 0x20 || cp == 0x7f {
+                        out.push_str(&format!("\\u{:04x}", cp));
+                    } else {
+                        out.push(ch);
+                    }
+                    if self.peek() == Some(b'.') {
+                        self.i += 1;
+                    } else {
+                        break;
+                    }
+                }
+            }
+            out.push('"');
+        } else if self.eat("a[") {
+            out.push('[');
+            self.list(b']', out, |p, o| p.value(o))?;
+            out.push(']');
+        } else if self.eat("o{") {
+            out.push('{');
+            self.list(b'}', out, |p, o| p.field(o))?;
+            out.push('}');
+        } else if self.eat("p(") {
+            out.push('(');
+            self.value(out)?;
+            if self.peek()? != b',' {
+                return None;
+            }
+            self.i += 1;
+            out.push_str(" + ");
+            self.value(out)?;
+            if self.peek()? != b')' {
+                return None;
+            }
+            self.i += 1;
+            out.push(')');
+        } else {
+            return None;
+        }
+        Some(())
+    }
+}
+
+pub fn render(v: &str) -> Option<String> {
+    let mut p = P { s: v.as_bytes(), i: 0 };
+    let mut out = String::new();
+    p.value(&mut out)?;
+    if p.i != v.len() {
+        return None;
+    }
+    Some(out)
+}
+
+fn canon(res: &str) -> String {
+    let w: Vec<&str> = res.split(' ').collect();
+    match w.as_slice() {
+        ["ok", h] => match hex_dec(h).and_then(|b| String::from_utf8(b).ok()) {
+            Some(t) => {
+                let t = t.trim();
+                if t == "true" || t == "false" || t.parse::<i64>().is_ok() {
+                    t.to_string()
+                } else {
+                    format!("X{}", h)
+                }
+            }
+            None => "Xbadhex".into(),
+        },
+        ["err", "eval", kind, detail] => {
+            let d = hex_dec(detail)
+                .and_then(|b| String::from_utf8(b).ok())
+                .unwrap_or_default();
+            match *kind {
+                "CompareDifferentTypesInequality" => format!("E{}:{}", kind, d),
+                // detail is "<func>/<arg index>/<got type>"
+                "InvalidStdFuncArgType" => format!("E{}:{}", kind, d),
+                _ => format!("E{}", kind),
+            }
+        }
+        _ => format!("X{}", res.replace(' ', "_")),
+    }
+}
+
+pub fn handle(args: &[&str]) -> Option<String> {
+    match args {
+        ["src", a] => Some(hex_enc(render(a)?.as_bytes())),
+        ["all", a, b] => {
+            let a = render(a)?;
+            let b = render(b)?;
+            let o = crate::ops_eval::EvalOpts::parse(&[])?;
+            let progs = [
+                format!("{} == {}", a, b),
+                format!("{} != {}", a, b),
+                format!("std.equals({}, {})", a, b),
+                format!("{} < {}", a, b),
+                format!("{} <= {}", a, b),
+                format!("{} > {}", a, b),
+                format!("{} >= {}", a, b),
+                format!("std.__compare({}, {})", a, b),
+                format!("std.__compare_array({}, {})", a, b),
+            ];
+            let res: Vec<String> = progs
+                .iter()
+                .map(|p| canon(&crate::ops_eval::eval_source(p.as_bytes(), &o)))
+                .collect();
+            Some(res.join(","))
+        }
+        _ => None,
+    }
 }
